@@ -62,6 +62,7 @@ type Parser struct {
 	// http fields
 	proto         string
 	statusCode    int
+	noBody        bool // the response status forbids a body (1xx, 204, 304)
 	status        string
 	headerKey     string
 	headerValue   string
@@ -309,6 +310,7 @@ UPGRADER:
 					return err
 				}
 				p.statusCode = code
+				p.noBody = code/100 == 1 || code == http.StatusNoContent || code == http.StatusNotModified
 				p.nextState(stateStatusBefore)
 				continue
 			}
@@ -471,7 +473,13 @@ UPGRADER:
 		case stateHeaderOverLF:
 			if c == '\n' {
 				p.headerExists = false
-				if p.chunked {
+				if p.noBody {
+					// such a response ends with its head, whatever
+					// framing headers it carries (RFC 7230 3.3.3).
+					p.noBody = false
+					start = i + 1
+					p.handleMessage()
+				} else if p.chunked {
 					start = i + 1
 					p.nextState(stateBodyChunkSizeBefore)
 				} else {
